@@ -38,6 +38,9 @@ class Undecided(Exception):
     """Tool limit / extraction failure / timeout: exit 2, never a verdict."""
 
 
+DEFAULT_SAT = os.environ.get('VERIF_SAT', 'cadical')
+
+
 class Job:
     def __init__(self, name, harness, enforce=None, rec=False, replace=(), tus=(),
                  defines=None, thorough_defines=None, flags=(), unwind=None, bounded=None,
@@ -326,6 +329,8 @@ def run_job(job, tier, inc_extra, keep_dir=None):
                 return res
             gi_out = out
         cb = ['cbmc', b] + ([] if job.text_ui else ['--json-ui']) + list(job.flags)
+        if '--sat-solver' not in job.flags:
+            cb += ['--sat-solver', DEFAULT_SAT]   # measured on the C14 / C05 / C06 jobs: cadical is 2-9x faster than the built-in minisat2
         if job.unwind is not None:
             cb += ['--unwind', str(job.unwind), '--unwinding-assertions']
         for u in job.unwindset:
@@ -716,7 +721,7 @@ def run_property(prop, jobs, tier, level_text, undecided_clauses, static_facts=N
     discharged = sum(r.discharged for r in unb)
     fns = sorted({f for r in results for f in r.job.functions if r.job.bounded is None})
     fns_b = sorted({f for r in results for f in r.job.functions if r.job.bounded is not None} - set(fns))
-    trusted = ['cbmc 6.11.0 / goto-cc / goto-instrument (dfcc contract instrumentation, built-in MiniSat back end)',
+    trusted = ['cbmc 6.11.0 / goto-cc / goto-instrument (dfcc contract instrumentation; SAT back end: cbmc\'s built-in CaDiCaL unless a job names another)',
                'gcc preprocessor + /repo/config.h as used by goto-cc; LP64, UChar=uint16_t, ICU 72 / sqlite3 headers',
                'lib/annotate.py inserts loop-contract clauses into a scratch copy of the real source (inserts only)']
     for r in results:
@@ -740,7 +745,7 @@ def run_property(prop, jobs, tier, level_text, undecided_clauses, static_facts=N
                       'replaced_callees': r.job.replace,
                       'loops_closed_by_invariant': r.loop_obligs, 'bounded': r.job.bounded,
                       'unwind': r.job.unwind, 'status': r.status, 'obligations': r.obligations, 'discharged': r.discharged,
-                      'reachability_canaries': r.reach_ok, 'backend': 'cbmc built-in SAT (MiniSat 2.2.1)',
+                      'reachability_canaries': r.reach_ok, 'backend': 'cbmc SAT back end: ' + (r.job.flags[r.job.flags.index('--sat-solver') + 1] if '--sat-solver' in r.job.flags else DEFAULT_SAT),
                       'solver_s': round(r.solver_s, 2), 'wall_s': round(r.wall_s, 2), 'cmd': r.cmdline,
                       'defines': dict(r.job.defines, **(r.job.thorough_defines if tier == 'thorough' else {})),
                       'clauses': r.job.clauses, 'note': r.job.note, 'reason': r.reason,
